@@ -564,7 +564,7 @@ example : (Forest.Read.children 0).result gapForest = [1, 2, 3] ∧
 Model/FatomSpec2.lean: after a read-only walk (the tree-level models of Repair.lean / Scope.lean on
 the erased root tree) both change the store only through `namespaces_mut(n).insert(prefix, ns)` /
 `namespaces_mut(n).remove(prefix)`, i.e. through `Forest.Call`s, run in the order the Rust issues
-them (`Forest.repairCalls`, `Forest.dedupCalls`, `Forest.runCalls`). -/
+them (`Forest.repairCalls`, `Forest.dedupCalls` — one pass —, `Forest.runCalls`). -/
 
 /-- Every call of `Forest.Call` preserves the invariant (a map insertion carrying an entry of the
     map's kind, as the Rust API constructs it). -/
@@ -580,9 +580,14 @@ theorem C04_runCalls (f : Forest) (hi : f.Inv) (cs : List Forest.Call) (hw : ∀
 theorem C04_step_prefixes (f : Forest) (hi : f.Inv) (env : Env) (node : Nat) :
     (f.createMissingPrefixes env node).1.Inv := Forest.createMissingPrefixes_inv hi env node
 
-/-- `deduplicate_namespaces(node)`. -/
+/-- `deduplicate_namespaces(node)`: passes until one removes nothing; every pass is a sequence of
+    `remove` calls, so the invariant holds after each of them and at the end. -/
 theorem C04_step_dedup (f : Forest) (hi : f.Inv) (env : Env) (node : Nat) :
     (f.deduplicateNamespaces env node).1.Inv := Forest.deduplicateNamespaces_inv hi env node
+
+/-- … for every pass: the loop cut off after any number of rounds leaves a forest with the invariant. -/
+theorem C04_step_dedup_passes (f : Forest) (hi : f.Inv) (env : Env) (node fuel : Nat) :
+    (Forest.dedupLoop env node fuel f).1.Inv := Forest.dedupLoop_inv env node fuel hi
 
 /-- Non-vacuity: `<a:e xmlns:p="urn:u"><a:e xmlns:p="urn:u"/></a:e>` with name 1 in namespace 2 and
     no prefix for it in scope … one `n0` declaration is created; the inner duplicate of `p` is removed. -/
